@@ -31,7 +31,7 @@ fail_build() {
   exit 2
 }
 if [[ "$SHADOW" == *" $ID "* ]]; then
-  OV=bin/overlay$SUF
+  OV=bin/_overlay$SUF
   rm -rf "$OV"
   go run ./cmd/vinstr -src "$SRC" -out "$OV" > bin/vinstr.log 2>&1 || { cat bin/vinstr.log >&2; echo "BUILD-ERROR: instrumentation failed" >&2; exit 2; }
   BIN=bin/vcheck-shadow$SUF
